@@ -438,7 +438,7 @@ type c15Sys struct {
 	txStart map[int]c13Acct // accounts at the start of the current transaction
 	accAddr map[int]bool    // accounts accessed in the current transaction (reverted frames included)
 	accSlot map[[2]int]bool // slots accessed in the current transaction (reverted frames included)
-	wrote   bool            // some operation of the current transaction changed state
+	wrote   bool            // a state-writing operation was executed in the current transaction
 	revd    bool            // a frame of the current transaction was reverted
 	block   *bal.ConstructionBlockAccessList
 	mblock  c15List
@@ -461,7 +461,16 @@ func (x *c15Sys) beginTx() {
 	x.wrote, x.revd = false, false
 }
 
-func (x *c15Sys) Enabled(i int) bool { return x.in.Enabled(i) }
+func (x *c15Sys) Enabled(i int) bool {
+	if o := x.in.ops[i]; o.kind == c13kSetState {
+		// caller contract: SSTORE only runs in the context of a contract account (code, or nonce >= 1 which a
+		// post-EIP-158 CREATE sets before the init code runs); storage on an EIP-161-empty account is unreachable.
+		if acc := x.in.m.f.accts[o.a]; acc == nil || (acc.nonce == 0 && acc.code == 0) {
+			return false
+		}
+	}
+	return x.in.Enabled(i)
+}
 
 func (x *c15Sys) Apply(i int) error {
 	o := x.in.ops[i]
@@ -469,7 +478,10 @@ func (x *c15Sys) Apply(i int) error {
 	armed := x.in.armed
 	x.last = "op"
 	switch o.kind {
-	case c13kAddBal, c13kSubBal, c13kSetNonce, c13kSetCode, c13kCreateContract, c13kSelfDestruct, c13kTouch:
+	case c13kAddBal, c13kSubBal, c13kSetNonce, c13kSetCode, c13kCreateContract, c13kSelfDestruct:
+		x.accAddr[o.a] = true
+		x.wrote = true
+	case c13kTouch:
 		x.accAddr[o.a] = true
 	case c13kCreateAccount:
 		// caller contract: the EVM creates an account only after Exist() returned false
@@ -477,9 +489,11 @@ func (x *c15Sys) Apply(i int) error {
 			return fmt.Errorf("Exist(%s) = true before CreateAccount, model says the account does not exist", c13AddrNames[o.a])
 		}
 		x.accAddr[o.a] = true
+		x.wrote = true
 	case c13kSetState:
 		x.accAddr[o.a] = true
 		x.accSlot[[2]int{o.a, o.s}] = true
+		x.wrote = true
 	case c13kGetState:
 		x.accAddr[o.a] = true
 		if m.f.accts[o.a] != nil {
@@ -488,15 +502,11 @@ func (x *c15Sys) Apply(i int) error {
 	case c13kRevert:
 		x.revd = true
 	}
-	before := m.f.canonAccounts()
 	tx := m.tx
 	if err := x.in.Apply(i); err != nil {
 		return err
 	}
 	if o.kind != c13kEndTx {
-		if o.kind != c13kRevert && o.kind != c13kSnapshot && before != m.f.canonAccounts() {
-			x.wrote = true
-		}
 		return nil
 	}
 	// ---- end of transaction `tx` (block access index tx+1): expected list = diff of the model
@@ -566,17 +576,6 @@ func c15Pretty(l *bal.ConstructionBlockAccessList) string {
 	return l.PrettyPrint()
 }
 
-// canonAccounts is the canonical form of the account part of a frame.
-func (f *c13Frame) canonAccounts() string {
-	var b strings.Builder
-	for a := 0; a < 3; a++ {
-		if acc := f.accts[a]; acc != nil {
-			fmt.Fprintf(&b, "%d:%d,%d,%d,%v,%v,%v;", a, acc.nonce, acc.bal, acc.code, acc.stor, acc.selfDestructed, acc.newContract)
-		}
-	}
-	return b.String()
-}
-
 func (x *c15Sys) Key() string {
 	x.in.last = x.last
 	k := x.in.Key()
@@ -589,11 +588,20 @@ func (x *c15Sys) Key() string {
 		}
 	}
 	b.WriteString(x.mblock.canon())
-	// white box: the list under construction in the StateDB and the merged block list
+	// white box: the list under construction in the StateDB (the merged block list equals mblock, compared at every EndTx)
 	if l := x.in.s.stateAccessList; l != nil {
-		fmt.Fprintf(&b, "|%x", l.ToEncodingObj().Hash())
+		for a := 0; a < 3; a++ {
+			if acc := l.Accounts[c13Addrs[a]]; acc != nil {
+				fmt.Fprintf(&b, "|%d:%d,%d,%d,w%d,r%d", a, len(acc.BalanceChanges), len(acc.NonceChanges), len(acc.CodeChange), len(acc.StorageWrites), len(acc.StorageReads))
+				for sl := 0; sl < 2; sl++ {
+					_, w := acc.StorageWrites[c13Slots[sl]]
+					_, rd := acc.StorageReads[c13Slots[sl]]
+					fmt.Fprintf(&b, ",%v%v", w, rd)
+				}
+			}
+		}
+		fmt.Fprintf(&b, "|n%d", len(l.Accounts))
 	}
-	fmt.Fprintf(&b, "|%x", x.block.ToEncodingObj().Hash())
 	return fmt.Sprintf("%x", crypto.Keccak256([]byte(b.String()))[:16])
 }
 
@@ -704,8 +712,8 @@ func TestVerif_C15(t *testing.T) {
 		}
 		r.Bound("change_restore_depth", 6)
 		r.Bound("change_restore_wide_depth", 5)
-		r.Bound("create_depth", 7)
-		c15Explore(r, "create-destruct", "funded", c15CreateOps(), 7)
+		r.Bound("create_depth", 6)
+		c15Explore(r, "create-destruct", "funded", c15CreateOps(), 6)
 		c15Explore(r, "change-restore-wide", "contract", c15ChangeRestoreOps(true), 5)
 		c15Explore(r, "change-restore", "contract", c15ChangeRestoreOps(false), 6)
 	})
